@@ -316,7 +316,7 @@ def all_cases(tier, seed):
                                           'path': path, 'srv': srv})
     if tier == 'thorough':
         rng = gen.mkrng('c14', seed)
-        for _ in range(4000):
+        for _ in range(80000):
             M = rng.choice([1, 2, 3, 7, 16, 100, 1000, 4096])
             cases.append({'kind': 'size', 'M': M,
                           'L': rng.randint(0, 3 * M + 3),
